@@ -126,6 +126,7 @@ class C13(core.Check):
     def compare_view(self, case, obs):
         return sx.dumps(hp.view_of(case, obs))
 
+    @hp.total
     def oracle(self, case, obs):
         bad = []
         cut, whole = obs
@@ -135,9 +136,11 @@ class C13(core.Check):
             bad.append("exception-escaped-parser")
         return bad
 
+    @hp.safe(True)
     def nontrivial(self, case, obs):
         return len(hp.case_cuts(case) or ()) >= 1 and len(obs[0][0]) >= 1
 
+    @hp.safe(list)
     def features(self, case, obs):
         f = [case[0]]
         cuts = hp.case_cuts(case) or ()
@@ -157,6 +160,7 @@ class C13(core.Check):
     def shrink(self, case):
         return hp.shrink_case(case)
 
+    @hp.safe(list)
     def mutate(self, rng, case):
         out = []
         d = hp.case_data(case)
